@@ -164,7 +164,14 @@ def gen_op(tp, st, inner=False):
 
 def gen_target(tp, st, self_id):
     nodes = [n for n in st['synth'] + st['group'] if n != self_id]
-    k = tp.draw(5)
+    k = tp.draw(6)
+    if k == 5:
+        # a plain integer node id: the root node, the default group, or the
+        # id of one of our groups
+        g = [x for x in st['group'] if x != self_id]
+        if g and tp.draw(2):
+            return ['idof', tp.choice(g)]
+        return ['int', tp.choice([0, 0, 1])]
     if k < 2 or not nodes:
         return None
     if k == 2:
@@ -318,6 +325,15 @@ def run_world(case, tape, ctx, w):
             return None, s.default_group.node_id
         if t == 'server':
             return s, s.default_group.node_id
+        if t[0] == 'int':
+            # (1 is the default group of client 0 only: map it to ours)
+            v = t[1] if t[1] == 0 else s.default_group.node_id
+            return v, v
+        if t[0] == 'idof':
+            obj = real.get(t[1])
+            if obj is None:
+                return None, s.default_group.node_id
+            return obj.node_id, obj.node_id
         obj = real.get(t[1])
         if obj is None:
             return None, s.default_group.node_id
